@@ -283,3 +283,40 @@ package service
 //@   loop 1: invariant forall i int :: 0 <= i && i < len(block.Transactions) ==> block.Transactions[i] != nil
 //@   ensures [pending]  forall j int :: 0 <= j && j < len(block.Transactions) ==> @select(@select(ghost(recv), ref(pool.received)), bytes(block.Transactions[j].Hash))
 //@   ensures [notexec]  forall j int :: 0 <= j && j < len(block.Transactions) ==> !@select(@select(ghost(kvhas), ref(pool.executed)), bytes(block.Transactions[j].Hash))
+
+// ---------------------------------------------------------------------------------------------
+// Flat transaction fee (C06): charged only when the source can pay it, moved to the fee account, nothing else.
+// hexStrAddr is common.HexStringToAddress (the parser ProcessFee uses).
+//@ spec abstract fn hexStrAddr(s string) common.Address
+//@ func ext_hexStringToAddress
+//@   option trusted extern=com.tuntun.rangers/node/src/common.HexStringToAddress
+//@   ensures result == hexStrAddr(arg0)
+//@   modifies nothing
+
+//@ spec macro fn feeNow() Int = ite(flag(IsProposal026), big(delta026), big(delta))
+//@ func TxPool.ProcessFee
+//@   property C06
+//@   requires accountDB != nil && delta != nil && delta026 != nil && big(delta) >= 0 && big(delta026) >= 0
+//@   requires [wf] forall a common.Address :: balOf(a) >= 0
+//@   ensures [refused] result != nil ==> ghost(bal) == old(ghost(bal)) && ghost(supply) == old(ghost(supply))
+//@   ensures [decides] (result == nil) == (old(balOf(hexStrAddr(tx.Source))) >= feeNow())
+//@   ensures [charged] result == nil && hexStrAddr(tx.Source) != common.FeeAccount ==> balOf(hexStrAddr(tx.Source)) == old(balOf(hexStrAddr(tx.Source))) - feeNow() && balOf(common.FeeAccount) == old(balOf(common.FeeAccount)) + feeNow()
+//@   ensures [others]  forall a common.Address :: a != hexStrAddr(tx.Source) && a != common.FeeAccount ==> balOf(a) == old(balOf(a))
+//@   ensures [supply]  ghost(supply) == old(ghost(supply))
+//@   modifies ghost(bal), ghost(supply)
+
+// The pool behind its interface (executors call it through service.GetTransactionPool()): the same contract.
+//@ func TransactionPool.ProcessFee
+//@   option trusted interface
+//@   requires accountDB != nil
+//@   ensures [refused] result != nil ==> ghost(bal) == old(ghost(bal)) && ghost(supply) == old(ghost(supply))
+//@   ensures [decides] (result == nil) == (old(balOf(hexStrAddr(tx.Source))) >= feeNow())
+//@   ensures [charged] result == nil && hexStrAddr(tx.Source) != common.FeeAccount ==> balOf(hexStrAddr(tx.Source)) == old(balOf(hexStrAddr(tx.Source))) - feeNow() && balOf(common.FeeAccount) == old(balOf(common.FeeAccount)) + feeNow()
+//@   ensures [others]  forall a common.Address :: a != hexStrAddr(tx.Source) && a != common.FeeAccount ==> balOf(a) == old(balOf(a))
+//@   ensures [supply]  ghost(supply) == old(ghost(supply))
+//@   modifies ghost(bal), ghost(supply)
+
+//@ func GetTransactionPool
+//@   option trusted
+//@   ensures typeid(result) != 0
+//@   modifies nothing
